@@ -45,7 +45,7 @@ type runConfig struct {
 func defaultConfig(tier string) *runConfig {
 	c := &runConfig{
 		tier: tier, workers: min(16, runtime.NumCPU()), solverKind: "z3-new",
-		queryTimeoutMs: 400, fallbackSolver: "cvc5", fallbackTimeoutMs: 30000, unwind: 20000, maxInstrs: 150_000_000, maxDepth: 400,
+		queryTimeoutMs: 400, fallbackSolver: "cvc5", fallbackTimeoutMs: 30000, unwind: 20000, maxInstrs: 150_000_000, maxDepth: 3000,
 		maxDecisions: 20000, maxValues: 5000, maxAlloc: 1 << 22, maxViolationsPerLabel: 3,
 		maxPaths: 400000, harnessBudget: 150 * time.Second, pathBudget: 60 * time.Second,
 	}
